@@ -2,7 +2,7 @@ import CookModel.Side.Builder
 import CookModel.Lemmas.BuilderFinish
 import CookModel.Lemmas.BuilderLayers
 import CookModel.Lemmas.BuilderDeclared
-import CookModel.Lemmas.BuilderOrder
+import CookModel.Lemmas.BuilderOrderFull
 /-
   C16  Converters built from configuration layers are consistent or rejected.
 
@@ -74,6 +74,30 @@ theorem C16_best_lists {α : Type} [Arith α] (files : List (UnitsFile α)) (con
     intro e he
     obtain ⟨u, hu, hq⟩ := hs.quantity e he
     exact ⟨u.unit, by rw [hp.units, List.getElem?_map, hu]; rfl, hq⟩
+  cases bd <;> cases s <;> simp only [StoreSpec, BestStore.lists, List.mem_cons, List.not_mem_nil, or_false] at hspec hl
+  · subst hl; exact hfin _ hspec
+  · rcases hl with rfl | rfl
+    · exact hfin _ hspec.1
+    · exact hfin _ hspec.2
+
+/-- The thresholds of a best list are relative to its first unit: entry `(t, id)` after the base carries
+    `t = convert_f64(1, unit id, base)` (whose same-quantity assertion holds). -/
+theorem C16_best_thresholds {α : Type} [Arith α] (files : List (UnitsFile α)) (conv : Converter α) (h : build files = .ok conv) :
+    ∀ q s l, (q, s) ∈ conv.best → l ∈ s.lists →
+      ∃ base ub ts, l = (Arith.ofNat 1, base) :: ts ∧ conv.units[base]? = some ub ∧
+        ∀ e, e ∈ ts → ∃ u, conv.units[e.2]? = some u ∧ convertF (Arith.ofNat 1) u ub = .ok e.1 := by
+  obtain ⟨b, c, _, hready, hp⟩ := (build_good files).of_ok h
+  intro q s l hqs hl
+  obtain ⟨bd, _, hspec⟩ := hp.best (q, s) hqs
+  have hfin : ∀ names, BestSpec c q names l →
+      ∃ base ub ts, l = (Arith.ofNat 1, base) :: ts ∧ conv.units[base]? = some ub ∧
+        ∀ e, e ∈ ts → ∃ u, conv.units[e.2]? = some u ∧ convertF (Arith.ofNat 1) u ub = .ok e.1 := by
+    intro names hs
+    obtain ⟨base, ub, ts, hl, hub, hts⟩ := hs.shape
+    refine ⟨base, ub.unit, ts, hl, by rw [hp.units, List.getElem?_map, hub]; rfl, ?_⟩
+    intro e he
+    obtain ⟨u, hu, hc⟩ := hts e he
+    exact ⟨u.unit, by rw [hp.units, List.getElem?_map, hu]; rfl, hc⟩
   cases bd <;> cases s <;> simp only [StoreSpec, BestStore.lists, List.mem_cons, List.not_mem_nil, or_false] at hspec hl
   · subst hl; exact hfin _ hspec
   · rcases hl with rfl | rfl
@@ -246,37 +270,25 @@ theorem C16_fraction_layers {α : Type} (fs : List (FractionsDecl α)) (f : Frac
 
 /-! ### Iteration order of an extend block -/
 
-/-- the keys an entry of an extend block touches in state `c`: the keys it removes (the addressed unit's and its
-    expansions') and the keys it adds (the edited unit's and its re-generated expansions'); an unknown key touches itself -/
-def C16_touchedKeys {α : Type} [Arith α] (si : SIConf) (c : Core α) (pr : Prec) (ke : Key × ExtendEntry α) : List Key :=
-  match idxGet c.index ke.1 with
-  | none => [ke.1]
-  | some id =>
-    match c.units[id]? with
-    | none => []
-    | some u =>
-      let kids : List Key := match u.expanded, si.prefixes, si.symbolPrefixes with
-        | some _, some pfx, some sym => SIPrefix.all.flatMap (fun p => (expandOne (u.edit pr ke.2) pfx sym p).unit.keys)
-        | _, _, _ => []
-      removedKeys c.units u ++ (u.edit pr ke.2).unit.keys ++ kids
+/-- The order clause, in full (DESIGN.md §6 planned it as partial).  `entryKeys si c pr (key, e)` are the keys an entry
+    touches in state `c`: the keys it takes out of the index (the addressed unit's and its SI expansions') and the keys
+    it puts in (the edited unit's and its re-generated expansions'); an unknown key touches itself.  For a block whose
+    entries touch pairwise disjoint key sets (`DisjointEntries`), every iteration order of its hash map has the same
+    outcome: the same units and the same index (as a lookup function), or an error in every order. -/
+theorem C16_extend_order {α : Type} [Arith α] (si : SIConf) (c : Core α) (g g' : Extend α) (hc : Ready c) (hsi : SIInv si c.units)
+    (hprec : g'.precedence = g.precedence) (hperm : g'.units.Perm g.units)
+    (hdis : g.units.Pairwise (fun a b => ∀ k, k ∈ entryKeys si c g.precedence a → k ∉ entryKeys si c g.precedence b)) :
+    (∃ c1 c2, applyExtendGroup si c g = .ok c1 ∧ applyExtendGroup si c g' = .ok c2 ∧
+        c1.units = c2.units ∧ ∀ k, idxGet c1.index k = idxGet c2.index k) ∨
+    (∃ e1 e2, applyExtendGroup si c g = .error e1 ∧ applyExtendGroup si c g' = .error e2) :=
+  applyExtendGroup_order_full si c g g' hc hsi hprec hperm hdis
 
-/-- The full statement of the order clause (DESIGN.md §6 C16 `extend_order`): for a block whose entries touch pairwise
-    disjoint key sets, every iteration order of its hash map has the same outcome — the same units and lookups, or an
-    error in every order.  NOT proved in full (see `C16_extend_order_partial`). -/
-def C16_extend_order_statement : Prop :=
-  ∀ (si : SIConf) (c : Core Rat) (g g' : Extend Rat), Ready c → SIInv si c.units →
-    g'.precedence = g.precedence → g'.units.Perm g.units →
-    g.units.Pairwise (fun a b => ∀ k, k ∈ C16_touchedKeys si c g.precedence a → k ∉ C16_touchedKeys si c g.precedence b) →
-    (∃ c1 c2, applyExtendGroup si c g = .ok c1 ∧ applyExtendGroup si c g' = .ok c2 ∧ CoreEq c1 c2) ∨
-    (∃ e1 e2, applyExtendGroup si c g = .error e1 ∧ applyExtendGroup si c g' = .error e2)
-
-/-- What is proved of it, without any disjointness premise and for every arithmetic instance: two iteration orders of
-    the same block that BOTH succeed yield the same units and the same index (as a lookup function) — the result of a
-    successful block is a function of the block as a set of entries.  What is missing for the full statement: that
-    under the disjointness premise success itself does not depend on the order (without the premise it can: with
-    `override`, `{a: names=[x]}`, `{b: names=[old name of a]}` succeeds only when `a` is edited first; both outcomes
-    satisfy the property, which allows "a build error or a consistent converter"). -/
-theorem C16_extend_order_partial {α : Type} [Arith α] (si : SIConf) (c c1 c2 : Core α) (g g' : Extend α)
+/-- Without any disjointness premise: two iteration orders of the same block that BOTH succeed yield the same units and
+    the same index — the result of a successful block is a function of the block as a set of entries.  (Success itself
+    can depend on the order when entries interact: with `override`, `{a: names=[x]}` and `{b: names=[old name of a]}`
+    succeed only when `a` is edited first; both outcomes satisfy the property, which allows "a build error or a
+    consistent converter".) -/
+theorem C16_extend_order_unique {α : Type} [Arith α] (si : SIConf) (c c1 c2 : Core α) (g g' : Extend α)
     (hc : Ready c) (hsi : SIInv si c.units) (hprec : g'.precedence = g.precedence) (hperm : g'.units.Perm g.units)
     (h1 : applyExtendGroup si c g = .ok c1) (h2 : applyExtendGroup si c g' = .ok c2) :
     c1.units = c2.units ∧ ∀ k, idxGet c1.index k = idxGet c2.index k :=
@@ -367,6 +379,14 @@ example : lookup (build [base, spanish]) ['k','i','l','o'] = some 5 := by decide
 -- the same block in the other hash-map order gives the same units
 example : unitAt (build [base, { spanish with extend := spanish.extend.map (fun e => { e with units := e.units.reverse }) }]) 5
     = unitAt (build [base, spanish]) 5 := by decide +kernel
+-- interacting entries: the outcome depends on the order (both outcomes are "error or consistent converter")
+example :
+    let blk (l : List (Key × ExtendEntry Rat)) : UnitsFile Rat :=
+      { defaultSystem := none, si := none, fractions := none, quantity := [], extend := some { precedence := .override, units := l } }
+    let a : Key × ExtendEntry Rat := (['l'], { ratio := none, difference := none, names := some [['x']], symbols := none, aliases := none })
+    let b : Key × ExtendEntry Rat := (['m'], { ratio := none, difference := none, names := some [['l','i','t','e','r']], symbols := none, aliases := none })
+    (build [base, blk [a, b]]).toOption.isSome = true ∧ errOf (build [base, blk [b, a]]) = some (.duplicateUnit ['l','i','t','e','r']) := by
+  decide +kernel
 -- later default system wins; none keeps the earlier one
 example : (build [base, spanish]).toOption.map (·.defaultSystem) = some .imperial := by decide +kernel
 -- rejected: a best unit of another quantity (before the repair: a panic)
